@@ -127,6 +127,15 @@ def gen(rng, quick):
         ops.append({"op": "sc.sum", "in": regs, "out": "S"})
         ops.append({"op": "sc.product", "in": regs, "out": "S"})
         ops.append({"op": "sc.batch_invert", "in": regs})
+    # short batches of GENERIC elements (1 and -1 are their own inverses: a batch of one such element says nothing
+    # about a short-batch special case - seeded change C02d-m1)
+    for n in (1, 1, 2, 2, 3, 4):
+        regs = []
+        for j in range(n):
+            sc("W%d" % j, rng.randrange(2, L - 1))
+            regs.append("W%d" % j)
+        ops.append({"op": "sc.batch_invert", "in": regs})
+        ops.append({"op": "sc.product", "in": regs, "out": "S"})
     return ops
 
 
